@@ -45,7 +45,7 @@ ASSUMPTIONS = [
 ]
 BOUND = {
     "quick": "seeds 0..47; histories depth<=3 over 8 forms (cold) + depth<=2 (warm); regen depth<=3 x 4 ops x 10 forms; schedules: 6 pairs cold + 1 warm, <=1 preemption at the first occurrence of every distinct line of either thread, bound 0 both orders",
-    "thorough": "seeds 0..127; histories depth<=3 cold and warm; schedules: all 36 unordered pairs incl. self-pairs, every line point, cold and warm; 3-thread one-preemption for 2 triples; 2 preemptions at call granularity for 4 pairs (location-deduplicated)",
+    "thorough": "seeds 0..127; histories depth<=3 cold and warm; schedules: all unordered pairs of the 11 driver forms incl. self-pairs, cold and warm, <=1 preemption at the first and last occurrence of every distinct line, and at every line point for the 7 collision-prone pairs (cold); 3-thread one-preemption for 2 triples; 2 preemptions at call granularity for 4 pairs (location-deduplicated)",
 }
 
 # ------------------------------------------------------------------ driver alphabet -------
@@ -89,16 +89,20 @@ FORMS = {
     "search": {"survey": [{"type": "select_one c", "name": "s", "label::English (en)": "S", "appearance": "search('f')"},
                           {"type": "text", "name": "p", "label::English (en)": "P", "calculation": "pulldata('f', 'a', 'b', ${s})", "default": "${last-saved#s}"}],
                "choices": [{"list_name": "c", "name": "n", "label::English (en)": "N", "label::French (fr)": "Nf"}]},
+    # a default_language that names no translation of the form; a last-saved reference (shared instance declaration)
+    "dl": {"survey": [{"type": "text", "name": "q", "label::English (en)": "Q", "hint::English (en)": "H"},
+                      {"type": "integer", "name": "p", "label::English (en)": "P", "default": "${last-saved#q}", "relevant": "${last-saved#q} != ''"}],
+           "settings": [{"default_language": "English"}]},
     # external choices -> itemsets CSV; select from file
     "ext": {"survey": [{"type": "text", "name": "q", "label": "Q"}, {"type": "select_one_external e", "name": "s", "label": "S", "choice_filter": "state=${q}"},
                        {"type": "select_one_from_file f.csv", "name": "ff", "label": "F", "choice_filter": "a=${q}"}],
             "external_choices": [{"list_name": "e", "name": "p", "label": "P", "state": "s1"}, {"list_name": "e", "name": "r", "state": "s2", "zone": "z"}]},
 }
 NAMES = list(FORMS)
-HIST = ["grp", "rep", "inst", "other", "ent", "tr", "search", "ext"]
+HIST = ["grp", "rep", "inst", "other", "ent", "tr", "search", "ext", "dl"]
 PROBE = ["long", "guidance", "image", "audio", "video", "big-image", "default", "English (en)", "French (fr)", "label", "hint", "name", "list_name", "state", "zone"]
 
-QUICK_PAIRS = [("grp", "rep"), ("rep", "rep2"), ("inst", "inst2"), ("inst", "inst"), ("other", "ent"), ("tr", "search")]
+QUICK_PAIRS = [("grp", "rep"), ("rep", "rep2"), ("inst", "inst2"), ("inst", "inst"), ("other", "ent"), ("tr", "search"), ("search", "dl")]
 QUICK_WARM = [("rep", "rep2")]
 TRIPLES = [("grp", "rep", "rep2"), ("inst", "inst2", "inst")]
 B2_PAIRS = [("rep", "rep2"), ("inst", "inst2"), ("grp", "rep"), ("other", "ent")]
@@ -283,7 +287,12 @@ def blocks(tier):
             if a == b and first == 1:
                 continue  # symmetric
             tr = solo_trace(nm, warm)
-            ks = dedup_ks(tr) if tier == "quick" else list(range(1, len(tr) + 1))
+            if tier == "quick":
+                ks = dedup_ks(tr)
+            elif (a, b) in QUICK_PAIRS and not warm:
+                ks = list(range(1, len(tr) + 1))  # every line point for the collision-prone pairs (cold caches)
+            else:
+                ks = dedup_ks(tr, both=True)  # first and last occurrence of every distinct line
             for i in range(0, len(ks), 150):
                 yield ("sched", [a, b], warm, first, ks[i:i + 150])
         yield ("sched0", [a, b], warm)
